@@ -3,6 +3,7 @@ CONSTANTS
   File <- MCFile
   FDataSeq <- MCData
   FOther <- MCOther
+  FSplit <- MCSplit
   Caps <- MCCaps
 INVARIANTS TypeOK C13_Counter C15_PinExact C17_NoOverclaim
 PROPERTIES C12_GCSafe C13_Bounded C16_OthersIntact C16_NoOrphans
